@@ -65,6 +65,8 @@ def _store_records(ctx, d, rng, k, rid0):
     ds = D.random_dense(rng, ns=ns, nt=nt, nc=nc, nsw=3, empty_templates=empty)
     with_rows = k % 2 == 1
     rows = np.sort(rng.choice(ns, size=int(rng.randint(2, ns + 1)), replace=False)) if with_rows else None
+    if with_rows and k % 4 == 3:
+        rows = rng.permutation(rows)          # the row table lists the stored spikes in ANY order
     nrows = len(rows) if with_rows else ns
     ds['pcind'] = np.asarray([rng.permutation(nc)[:nloc] for _ in range(nt)])
     ds['pcf'] = rng.randint(1, 9, size=(nrows, 3, nloc)).astype(float)
@@ -82,7 +84,12 @@ def _store_records(ctx, d, rng, k, rid0):
         sc[rng.rand(ns) < 0.2] = nt
         ds['sc'] = sc
     shutil.rmtree(d / 'f', ignore_errors=True)
-    p = D.write_dataset(d / 'f', ds)
+    big = k % 5 == 4
+    if big:
+        # a double-precision store holding values that single precision cannot represent
+        ds['pcf'][rng.rand(*ds['pcf'].shape) < 0.3] = 2 ** 24 + 1
+        ds['tf'][rng.rand(*ds['tf'].shape) < 0.3] = 2 ** 24 + 3
+    p = D.write_dataset(d / 'f', ds, float_dtype=np.float64 if big else np.float32)
     m = D.load(p)
     recs = []
     try:
